@@ -42,11 +42,11 @@ def shards(tier, seed):
 # value generators
 
 KEYS = ["k", "", "a b", 'q"uote', "back\\slash", "new\nline", "tab\t", "é€", "\x00nul", "k:v", "{", "'", "\\\"", "a,b", " ",
-        "very" * 30, "K", "k1", "0", "-"]
+        "very" * 30, "K", "k1", "0", "-", "line\u2028sep", "next\x85line", "para\u2029graph"]
 
 
 def json_scalar(rnd):
-    return rnd.choice([None, 0, 1, -7, 10 ** 20, 0.5, -2.25, 1e300, float("inf"), float("-inf"), float("nan"), "", "s", "é€\n\"\\", True, False])
+    return rnd.choice([None, 0, 1, -7, 10 ** 20, 0.5, -2.25, 1e300, float("inf"), float("-inf"), float("nan"), "", "s", "é€\n\"\\", True, False, "a\u2028b", "c\x85d\u2029"])
 
 
 def json_shaped(rnd, depth=0):
@@ -100,7 +100,7 @@ def picklable(rnd, depth=0):
     return {rnd.choice(KEYS + [1, (1, 2), None]): picklable(rnd, depth + 1) for _ in range(rnd.randint(0, 3))}
 
 
-def frame(rnd, features):
+def frame(rnd, features, ext=None):
     import numpy as np
     import pandas as pd
 
@@ -138,6 +138,13 @@ def frame(rnd, features):
     if n and rnd.random() < 0.3:
         features.add("frame.non_default_index")
         df = df.iloc[::-1] if rnd.random() < 0.5 else df.set_index(pd.Index(["r%d" % j for j in range(n)], name="idx"))
+    if ext in (None, "pickle", "pkl") and rnd.random() < 0.2 and len(df.columns):
+        # column labels that are not text (numbers, tuples): only the pickling formats can carry them
+        features.add("frame.non_text_labels")
+        if rnd.random() < 0.5:
+            df.columns = list(range(2000, 2000 + len(df.columns)))
+        else:
+            df.columns = pd.MultiIndex.from_tuples([("g%d" % (j % 2), j) for j in range(len(df.columns))])
     if rnd.random() < 0.1:
         features.add("frame.object_cells")
         df = pd.DataFrame({"o": [[1, 2], {"k": 1}][: max(1, min(n, 2))]})
@@ -237,7 +244,7 @@ def gen_value(rnd, tid, ext, features):
             v = [v]
         return v
     if tid == "dataframe":
-        return frame(rnd, features)
+        return frame(rnd, features, ext)
     return None
 
 
